@@ -55,7 +55,8 @@ func finish(ev map[string]any) (string, bool) {
 		"attempts_rejected_frozen", "immutable_kind_attempts", "module_function_calls", "module_function_rejected_frozen", "unreachable_checks", "unreachable_sink_checks",
 		"unreachable_mutations_accepted", "poke_calls_rejected", "poke_calls_accepted", "host_values_reachable_and_frozen", "shadowing_modules",
 		"predeclared_identity_checks", "reachable_containers_on_error_path", "frozen_flag_checks",
-		"modules_deriving_from_frozen_lib", "modules_deriving_from_frozen_host-frozen"}
+		"modules_deriving_from_frozen_lib", "modules_deriving_from_frozen_host-frozen",
+		"modules_aliasing_frozen_lib", "modules_aliasing_frozen_host-frozen", "alias_attempts", "alias_attempts_mutation_succeeded", "frozen_input_snapshot_checks"}
 	for _, k := range need {
 		if counters[k] == 0 {
 			return "counter " + k + " is zero: the monitor did not observe what it needs", true
@@ -77,6 +78,26 @@ type hostEnv struct {
 	labels map[string]starlark.Value // path label -> host container
 	sunk   []sunkRec
 	frozen []root // values the host froze itself before execution
+
+	// frozen inputs of the main module and their canonical snapshot (see checkFrozenInputs)
+	inputSnap func() string
+	baseline  string
+	changed   []fail
+	attempts  int
+	succeeded int
+}
+
+// checkFrozenInputs compares the frozen inputs (host-frozen predeclared values, globals of the
+// loaded library module) with their snapshot; a difference is blamed on label.
+func (h *hostEnv) checkFrozenInputs(label, what string) {
+	if h.inputSnap == nil {
+		return
+	}
+	now := h.inputSnap()
+	if now != h.baseline {
+		h.changed = append(h.changed, fail{"C04 frozen-input-changed " + label, fmt.Sprintf("%s changed a frozen input of the module: %s", what, firstDiff(h.baseline, now))})
+		h.baseline = now
+	}
 }
 
 func ints(xs ...int) []starlark.Value {
@@ -139,6 +160,23 @@ func newHostEnv() *hostEnv {
 		"struct": starlark.NewBuiltin("struct", starlarkstruct.Make),
 		"module": starlark.NewBuiltin("module", starlarkstruct.MakeModule),
 		"json":   sjson.Module,
+		// attempt(label, f, k): call f(k), swallow its error, then check that no frozen input changed
+		"attempt": starlark.NewBuiltin("attempt", func(th *starlark.Thread, _ *starlark.Builtin, args starlark.Tuple, _ []starlark.Tuple) (starlark.Value, error) {
+			if len(args) != 3 {
+				return starlark.None, nil
+			}
+			label, _ := starlark.AsString(args[0])
+			res, err := starlark.Call(th, args[1], starlark.Tuple{args[2]}, nil)
+			h.attempts++
+			if err == nil {
+				h.succeeded++
+			}
+			h.checkFrozenInputs(label, fmt.Sprintf("mutation #%s of the value derived by %s (err=%v)", args[2].String(), label, err))
+			if err != nil || res == nil {
+				return starlark.None, nil
+			}
+			return res, nil
+		}),
 		"sink": starlark.NewBuiltin("sink", func(_ *starlark.Thread, _ *starlark.Builtin, args starlark.Tuple, _ []starlark.Tuple) (starlark.Value, error) {
 			if len(args) == 2 {
 				if s, ok := args[0].(starlark.String); ok {
@@ -149,6 +187,14 @@ func newHostEnv() *hostEnv {
 		}),
 	}
 	return h
+}
+
+func hostFrozenSnap(h *hostEnv) string {
+	d := starlark.StringDict{}
+	for _, f := range h.frozen {
+		d[f.name] = f.v
+	}
+	return canon.Globals(d)
 }
 
 // identity of a binding's value, for before/after comparison of predeclared and Universe
@@ -317,9 +363,14 @@ func (m *monitor) runModule() {
 			lt.SetMaxExecutionSteps(1 << 20)
 			g, err := starlark.ExecFileOptions(opts, lt, "lib.star", p.lib.src, env.pre)
 			libUnit = &execUnit{p.lib, g, err}
+			// from now on the library's globals are frozen inputs of the main module
+			env.inputSnap = func() string { return hostFrozenSnap(env) + "lib.star\n" + canon.Globals(g) }
+			env.baseline = env.inputSnap()
 		}
 		return libUnit.globals, libUnit.err
 	}
+	env.inputSnap = func() string { return hostFrozenSnap(env) }
+	env.baseline = env.inputSnap()
 	if p.maxSteps > 0 {
 		th.SetMaxExecutionSteps(p.maxSteps)
 	} else {
@@ -330,6 +381,10 @@ func (m *monitor) runModule() {
 	pn := sl.Safe(func() { g, err = starlark.ExecFileOptions(opts, th, "main.star", p.main.src, env.pre) })
 	detail := map[string]any{"main.star": p.main.src, "lib.star": libSrc(p), "options": sl.OptionsString(opts), "max_steps": p.maxSteps, "host_usage": p.hostUsage}
 	if pn != nil {
+		// a frozen input already seen changing explains the panic better than the panic itself
+		for _, f := range env.changed {
+			c.Violation(f.key, f.what, detail)
+		}
 		c.Violation("C04 panic module-exec-or-freeze", fmt.Sprintf("Go panic while executing/freezing the module: %v at %s", pn.Value, pn.TopFrame()), detail)
 		c.Eval(1)
 		return
@@ -367,10 +422,24 @@ func (m *monitor) runModule() {
 		if strings.HasPrefix(f, "shadow-") {
 			c.Count("shadowing_modules", 1)
 		}
+		if strings.HasPrefix(f, "alias-source:") {
+			c.Count("modules_aliasing_frozen_"+strings.TrimPrefix(f, "alias-source:"), 1)
+		}
 		if strings.HasPrefix(f, "derive-source:") {
 			c.Count("modules_deriving_from_frozen_"+strings.TrimPrefix(f, "derive-source:"), 1)
 		}
 	}
+
+	// ---- frozen inputs unchanged by whatever main did to values derived from them
+	env.checkFrozenInputs("unattributed", "execution of main.star ("+outcome+")")
+	c.Count("frozen_input_snapshot_checks", env.attempts+1)
+	c.Count("alias_attempts", env.attempts)
+	c.Count("alias_attempts_mutation_succeeded", env.succeeded)
+	c.Eval(env.attempts)
+	for _, f := range env.changed {
+		m.failf(f.key, "%s", f.what)
+	}
+	env.changed = nil
 
 	// ---- predeclared / universe unchanged
 	c.Count("predeclared_identity_checks", 1)
@@ -720,6 +789,12 @@ func (m *monitor) runModule() {
 			m.failf("C04 unreachable-frozen "+how, "the %s at %s is not reachable from the globals of the finished module (%s) but refuses mutation: %v", nd.v.Type(), H.path(i), outcome, merr)
 		} else {
 			c.Count("unreachable_mutations_accepted", 1)
+		}
+	}
+	env.checkFrozenInputs("by-later-attack", "the attacks / later calls after the module finished")
+	if len(m.fails) == 0 { // catch-all net: any specific cause found above already explains it
+		for _, f := range env.changed {
+			m.failf(f.key, "%s", f.what)
 		}
 	}
 	// the attacks and later calls must not have touched the environment either
